@@ -278,6 +278,7 @@ func runC15(c *ctxT) {
 			c.emit(sx.L(sx.S("frame"), sx.S(k.name), ch.sx(), sx.B(x)), sx.B(got))
 			c.count("frame/" + k.name + "/" + chanClass(ch) + "/payload" + lenClass(len(x)))
 		}
+		framesHeldTogether(c, k, r.Fork(), nFrame/len(muxKinds)/4+1)
 		// ---- unframe: demux function on valid, mutated and adversarial bytes ----
 		for i := 0; i < nUnframe/len(muxKinds); i++ {
 			var raw []byte
